@@ -65,6 +65,7 @@ class PathCtx:
         self.tokens = {}         # format tokens
         self.notes = []
         self.synced = set()
+        self.decided = {}
 
     # -- fresh names are deterministic per path so that re-execution reproduces them
     def fresh(self, prefix, sort='real'):
@@ -97,6 +98,15 @@ class PathCtx:
             return True
         if z3.is_false(cond):
             return False
+        # a condition (or its negation) already decided on this path needs no solver call and no trace entry
+        pol = True
+        key = cond
+        if z3.is_not(key):
+            key = key.arg(0)
+            pol = False
+        kid = key.get_id()
+        if kid in self.decided:
+            return self.decided[kid][0] == pol
         self.sync([cond])
         if self.pos < len(self.trace):
             v = self.trace[self.pos]
@@ -112,6 +122,7 @@ class PathCtx:
         c = cond if b else z3.Not(cond)
         self.pathcond.append(c)
         self.solver.add(c)
+        self.decided[kid] = (b == pol, key)
         return b
 
     def sync(self, terms):
@@ -159,6 +170,12 @@ class PathCtx:
         if isinstance(claim, bool):
             claim = z3.BoolVal(claim)
         assume = [a.e if isinstance(a, SB) else a for a in assume]
+        claim = z3.simplify(claim)
+        stamp = (len(self.assumes), len(self.pathcond))
+        if z3.is_true(claim) and not assume and self.__dict__.get('reach_stamp') == stamp:
+            rec = dict(name=name, result='unsat', model=None, reach='sat', trace=list(self.trace[:self.pos]), info=info, trivial=True)
+            self.obligations.append(rec)
+            return rec
         s = self.solver
         s.push()
         if timeout_ms:
@@ -167,7 +184,12 @@ class PathCtx:
             extra = self.closure([claim] + assume + self.assumes + self.pathcond)
             s.add(extra)
             s.add(assume)
-            reach = self.check()
+            if not assume and not extra and self.__dict__.get('reach_stamp') == stamp:
+                reach = 'sat'
+            else:
+                reach = self.check()
+                if reach == 'sat' and not assume:
+                    self.reach_stamp = stamp
             if reach == 'unsat':
                 rec = dict(name=name, result='vacuous', model=None)
             else:
@@ -245,7 +267,6 @@ def lb(o):
 
 
 class SB:
-    __array_priority__ = 1000
 
     def __init__(self, e):
         self.e = e if z3.is_expr(e) else z3.BoolVal(bool(e))
@@ -336,7 +357,6 @@ def _frac(o, lim=10**9):
 
 
 class SN:
-    __array_priority__ = 1000
 
     def __init__(self, e, ang=None):
         self.e = e
@@ -681,11 +701,19 @@ def _floordiv_int(a, b):
 
 
 def _defer(fn):
+    name = fn.__name__
+    iscmp = name in ('__lt__', '__le__', '__gt__', '__ge__', '__eq__', '__ne__')
+
     def w(s, o):
         if isinstance(o, real_np.ndarray):
             return NotImplemented
+        if isinstance(o, (float, real_np.floating)) and o != o:
+            # IEEE semantics of a NaN operand: comparisons are False (!= True), arithmetic gives NaN
+            if iscmp:
+                return name == '__ne__'
+            return float('nan')
         return fn(s, o)
-    w.__name__ = fn.__name__
+    w.__name__ = name
     return w
 
 
